@@ -65,7 +65,7 @@ Section Container.
     K (ks !! Z.to_nat which, Z.max 0 (which - Z.of_nat (length ks))) h.
   Proof.
     intros Hw. rewrite (bindM_Ret _ _ _ _ _ read_child). unfold heap_fuel. unfold bindM at 1.
-    rewrite (bindM_Ret _ _ _ _ _ (u_walk_sim _ 0 which ltac:(pose proof (chain_fuel _ _ _ _ _ W Hn); lia) Hw)).
+    rewrite (bindM_Ret _ _ _ _ _ (u_walk_sim (Pos.to_nat (h_next h)) 0 which ltac:(pose proof (chain_fuel _ _ _ _ _ W Hn); lia) Hw)).
     by rewrite Nat.sub_0_r.
   Qed.
 End Container.
@@ -82,18 +82,23 @@ Proof.
   unfold spec_get_index, children_of. rewrite Hp. cbn [fmap option_fmap option_map tchildren]. fold ks.
   destruct (ks !! Z.to_nat which) as [x|] eqn:Hk; [|reflexivity].
   cbn [is_null]. unfold cJSON_DetachItemViaPointer. cbn [is_null orb].
-  rewrite (bindM_Ret _ _ _ _ _ (read_child h F p d ks W Hn Href)).
+  pose proof (read_child h F p d ks W Hn Href) as Hrc.
+  rewrite (bindM_Ret _ _ _ _ _ Hrc).            (* left: [ac <~ get_child array] of the Utils function *)
+  rewrite (bindM_Ret _ _ _ _ _ Hrc).            (* right: the read of the refusal test of the core function *)
   destruct (Z.to_nat which) as [|k'] eqn:Ek.
-  - rewrite Hk, ptr_eqb_refl. cbn [negb]. by rewrite bindM_ret.
+  - rewrite Hk, ptr_eqb_refl. cbn [negb]. rewrite bindM_ret. cbv beta iota.
+    rewrite (bindM_Ret _ _ _ _ _ Hrc). by rewrite Hk, ptr_eqb_refl.
   - destruct (ks !! 0%nat) as [c0|] eqn:Hc0; [|apply lookup_ge_None in Hc0; apply lookup_lt_Some in Hk; lia].
     destruct (ks !! k') as [pv|] eqn:Hpv; [|apply lookup_ge_None in Hpv; apply lookup_lt_Some in Hk; lia].
     assert (NDks : NoDup ks).
     { apply elem_of_Permutation in Hn as [FL HFL].
       destruct (heap_lnk_of_focus _ _ _ _ _ _ (wf_nodup _ _ W) (reflexivity _) HFL) as [_ HN]. by apply NoDup_app in HN as [? _]. }
     assert (c0 <> x) by (eapply (NoDup_lookup_ne ks 0 (S k')); eauto).
-    rewrite (ptr_eqb_Some_ne x c0) by done. cbn [negb]. rewrite bindM_assoc.
+    rewrite (ptr_eqb_Some_ne x c0) by done. cbn [negb].
+    symmetry. rewrite bindM_assoc.
     rewrite (bindM_Ret _ _ _ _ _ (read_prev h F p d ks W Hn (S k') x Hk)). rewrite link_at_S. cbn [snd]. rewrite Hpv.
-    by rewrite !bindM_ret.
+    rewrite !bindM_ret. cbn [is_null]. cbv beta iota.
+    rewrite (bindM_Ret _ _ _ _ _ Hrc). by rewrite (ptr_eqb_Some_ne x c0).
 Qed.
 
 (** Utils' [detach_item_from_array] refines the forest model of cJSON_DetachItemFromArray … *)
@@ -106,7 +111,7 @@ Theorem u_detach_sim h F p d cs which tx :
   WF (upd_maps h (heap_lnk_of F') (heap_dat_of F')) F'.
 Proof.
   intros W Hp Href Hw Hk F'. rewrite (u_detach_eq_core h F p d cs which W Hp Href Hw).
-  by apply cJSON_DetachItemFromArray_sim.
+  by apply (cJSON_DetachItemFromArray_sim h F p d cs which tx).
 Qed.
 (** … and leaves the heap alone when there is no such element *)
 Theorem u_detach_refused h F p d cs which :
@@ -150,7 +155,8 @@ Section Insert.
     unfold spec_get_index, children_of. rewrite HpF. cbn [fmap option_fmap option_map tchildren].
     destruct (ks !! Z.to_nat which) as [a|] eqn:Ha; cbn [is_null].
     - (* insert before [a] *)
-      rewrite (bindM_Ret _ _ _ _ _ (read_child h F p d ks W HnF Href)).
+      pose proof (read_child h F p d ks W HnF Href) as Hrc.
+      rewrite (bindM_Ret _ _ _ _ _ Hrc).            (* right: the read of the corruption test of the core function *)
       destruct (Z.to_nat which) as [|k'] eqn:Ek.
       + rewrite Ha, ptr_eqb_refl. cbn [negb]. by rewrite bindM_ret.
       + destruct (ks !! 0%nat) as [c0|] eqn:Hc0; [|apply lookup_ge_None in Hc0; apply lookup_lt_Some in Ha; lia].
@@ -159,7 +165,7 @@ Section Insert.
         { pose proof HnF as Hn. apply elem_of_Permutation in Hn as [FL HFL].
           destruct (heap_lnk_of_focus _ _ _ _ _ _ (wf_nodup _ _ W) (reflexivity _) HFL) as [_ HN]. by apply NoDup_app in HN as [? _]. }
         assert (c0 <> a) by (eapply (NoDup_lookup_ne ks 0 (S k')); eauto).
-        rewrite (ptr_eqb_Some_ne a c0) by done. cbn [negb]. rewrite bindM_assoc.
+        rewrite (ptr_eqb_Some_ne a c0) by done. cbn [negb]. symmetry. rewrite bindM_assoc.
         rewrite (bindM_Ret _ _ _ _ _ (read_prev h F p d ks W HnF (S k') a Ha)). rewrite link_at_S. cbn [snd]. rewrite Hpv.
         by rewrite !bindM_ret.
     - (* at the end: cJSON_AddItemToArray; the Utils function ignores its result and returns 1 *)
@@ -174,7 +180,7 @@ Section Insert.
     insert_item_in_array (Some p) which (Some x) h = Ret (true, upd_maps h (heap_lnk_of F') (heap_dat_of F')) /\
     WF (upd_maps h (heap_lnk_of F') (heap_dat_of F')) F'.
   Proof.
-    intros Hw Hl F'. rewrite (u_insert_eq_core which ltac:(lia)). by apply cJSON_InsertItemInArray_sim_before.
+    intros Hw Hl F'. rewrite (u_insert_eq_core which ltac:(lia)). by apply (cJSON_InsertItemInArray_sim_before h F p x tx d cs which).
   Qed.
   (** … and exactly at the end (append) … *)
   Theorem u_insert_sim_append which : which = Z.of_nat (length cs) ->
@@ -183,7 +189,7 @@ Section Insert.
     insert_item_in_array (Some p) which (Some x) h = Ret (true, upd_maps h (heap_lnk_of F') (heap_dat_of F')) /\
     WF (upd_maps h (heap_lnk_of F') (heap_dat_of F')) F'.
   Proof.
-    intros Hw F'. rewrite (u_insert_eq_core which ltac:(lia)). apply cJSON_InsertItemInArray_sim_append; try done; lia.
+    intros Hw F'. rewrite (u_insert_eq_core which ltac:(lia)). apply (cJSON_InsertItemInArray_sim_append h F p x tx d cs which); try done; lia.
   Qed.
   (** … and past the end it REFUSES and touches nothing, where cJSON_InsertItemInArray appends
       (Properties_C06.C06_insert_past_the_end) *)
